@@ -145,11 +145,14 @@ def run_many(binary, lines, shards=NPROC, timeout=1800):
     if n == 0:
         return []
     shards = max(1, min(shards, n))
-    size = (n + shards - 1) // shards
-    parts = [lines[i:i + size] for i in range(0, n, size)]
+    # round-robin shards: expensive neighbours (mutants of one file) spread over all processes
+    parts = [lines[i::shards] for i in range(shards)]
     with ThreadPoolExecutor(max_workers=len(parts)) as ex:
         res = list(ex.map(lambda part: _run_lines(binary, part, timeout), parts))
-    return [x for part in res for x in part]
+    out = [None] * n
+    for i, part in enumerate(res):
+        out[i::shards] = part
+    return out
 
 
 def run_impl(lines, release=False, **kw):
